@@ -14,6 +14,8 @@ structure Interp (R : Type) where
   D : DArgs → R
   CG : CGArgs → R
   par : String → R
+  /-- the lineshape: any function of the builder id, the particle and the variable set. -/
+  dyn : DynArgs → R
   nsq : R → R
 
 variable {R : Type} [CommRing R]
@@ -22,8 +24,12 @@ def denOpt (ι : Interp R) : Option String → R
   | some c => ι.par c
   | none => 1
 
+def denDyn (ι : Interp R) : Option DynArgs → R
+  | some a => ι.dyn a
+  | none => 1
+
 def denNode (ι : Interp R) (n : NodeFactor) : R :=
-  ι.D n.d * (n.cg.map ι.CG).prod * denOpt ι n.coupling
+  ι.D n.d * (n.cg.map ι.CG).prod * denOpt ι n.coupling * denDyn ι n.dyn
 
 def denTerm (ι : Interp R) (t : Term) : R :=
   (t.prefactor : R) * denOpt ι t.coeff * (t.nodes.map (denNode ι)).prod
@@ -60,25 +66,35 @@ theorem sortBy_pair {α : Type} (lt : α → α → Bool) (a b : α) :
     sortBy lt [a, b] = if lt b a then [b, a] else [a, b] := by
   simp [sortBy, insertSorted]
 
-theorem nodeFactor_eq_specNode (cfg : Config) (t : Transition) (n : Nat)
-    (h : (t.outEdges n).length = 2) : t.nodeFactor cfg n = t.specNode cfg n := by
+theorem nodeFactor_eq_specNode (cfg : Config) (sel : List DecayKey) (t : Transition) (n : Nat)
+    (h : (t.outEdges n).length = 2) (hk : t.decayKey n ∈ sel) :
+    t.nodeFactor cfg sel n = t.specNode cfg n := by
   match hoe : t.outEdges n, h with
   | [a, b], _ =>
-    unfold Transition.nodeFactor Transition.specNode Transition.decay
+    unfold Transition.nodeFactor Transition.specNode Transition.dynFactor Transition.dynArgs
+    rw [if_pos hk]
+    unfold Transition.decay
     simp only [hoe, sortBy_pair, Transition.isOpposite]
     by_cases hlt : lexLt (t.attached b) (t.attached a) = true
     · simp [hlt]
     · simp [hlt]
 
-theorem term_eq_specTerm (v : Variant) (cfg : Config) (m : Mapping) (t : Transition)
-    (h : t.isobar = true) : t.term v cfg m = t.specTerm v cfg m := by
+theorem term_eq_specTerm (v : Variant) (cfg : Config) (m : Mapping) (sel : List DecayKey) (t : Transition)
+    (h : t.isobar = true) (hk : ∀ n ∈ t.nodes, t.decayKey n ∈ sel) :
+    t.term v cfg m sel = t.specTerm v cfg m := by
   unfold Transition.term Transition.specTerm
   congr 1
   apply List.map_congr_left
   intro n hn
-  apply nodeFactor_eq_specNode
+  apply nodeFactor_eq_specNode _ _ _ _ _ (hk n hn)
   unfold Transition.isobar at h
   have := (List.all_eq_true.mp h) n hn
   simpa using this
+
+/-- every node of every symmetrised graph of a transition of the reaction is a key of the selector. -/
+theorem mem_selectorKeys (ts : List Transition) (t : Transition) (ht : t ∈ ts) (g : Transition)
+    (hg : g ∈ t.symmetrise) (n : Nat) (hn : n ∈ g.nodes) : g.decayKey n ∈ selectorKeys ts := by
+  unfold selectorKeys
+  exact List.mem_flatMap.mpr ⟨t, ht, List.mem_flatMap.mpr ⟨g, hg, List.mem_map_of_mem hn⟩⟩
 
 end Ampverif.Lemmas.C02Denote
